@@ -27,6 +27,8 @@ int main(void){
   rc = U(uriAddBaseUriExMm)(&T1, &R1, &B, URI_RESOLVE_STRICTLY, &mm); uk_assert(rc == URI_SUCCESS, "C20: resolve succeeds");
   s1 = recompose(&T1, &l1);
   (void)U(uriEqualsUri)(&T1, &B); (void)U(uriNormalizeSyntaxMaskRequired)(&B); (void)U(uriToStringCharsRequired)(&B, &req);
+  /* the read-only queries on the shared symbolic reference as well (relative references with several segments included) */
+  (void)U(uriEqualsUri)(&R1, &B); (void)U(uriNormalizeSyntaxMaskRequired)(&R1); { unsigned mk = 0; (void)U(uriNormalizeSyntaxMaskRequiredEx)(&R1, &mk); } (void)U(uriToStringCharsRequired)(&R1, &req);
   rc = U(uriRemoveBaseUriMm)(&D1, &T1, &B, URI_FALSE, &mm); uk_assert(rc == URI_SUCCESS, "C20: create reference succeeds");
   rc = U(uriComposeQueryCharsRequired)(&q, &req); uk_assert(rc == URI_SUCCESS, "C20: compose chars required succeeds");
   (void)U(uriEscapeEx)(qk, qk + 3, esc, URI_TRUE, URI_FALSE);
